@@ -29,6 +29,7 @@ func (c clusterLister) ListPods(ctx context.Context, ns string) ([]*corev1.Pod, 
 // response compared deeply with the response a freshly constructed controller gives to that request handled alone.
 func runC15(c *Ctx) {
 	runC15RealDeps(c)
+	runC15Webhook(c)
 	batches, per := 40, 48
 	if c.Thorough {
 		batches = 600
